@@ -262,6 +262,11 @@ func runPhase(ph phase, secs int, scratch string) ([]*stats, map[uint64]uint64) 
 			defer wg.Done()
 			hf := filepath.Join(scratch, fmt.Sprintf("hashes-%s-%d.bin", ph.Name, w))
 			cmd := workerCmd(ph, scratch, "-worker", strconv.Itoa(w), "-workers", strconv.Itoa(ph.Workers), "-deadline", strconv.FormatInt(deadline, 10), "-hashes", hf)
+			if ph.Race && w%2 == 1 {
+				// half of the race-build workers run with 16 Ps: code whose
+				// behaviour depends on GOMAXPROCS (parallel paths) gets both
+				cmd.Args = append(cmd.Args, "-procs", "16")
+			}
 			if ph.Race {
 				lp := filepath.Join(scratch, fmt.Sprintf("race-%s-%d", ph.Name, w))
 				cmd.Args = append(cmd.Args, "-racelog", lp)
